@@ -64,8 +64,94 @@ let dup_step cs os =
       bad := ("BAD\tside=impl\tclause=two pulls of one stream id: replies " ^ a ^ " / " ^ b ^ ", the model gives " ^ m1 ^ " then " ^ m2 ^ " (exactly one end marker)") :: !bad;
     !bad
 
+(* the ordinary case record of a case line (the harness-only case kinds carry the same fields) *)
+let case_of f ~data ~cj =
+  { Svs.c_data = data; c_n = n_of_hex (get f "n"); c_depth = n_of_hex (get f "d");
+    c_writes = []; c_fail = None; c_zstd = false;
+    c_kind = n_of_hex (get f "kind"); c_puller = n_of_hex (get f "pull");
+    c_cancel_after = cj; c_panic = false }
+
+(* conc=K: K consumers pull K different resources of one server at the same moment, many rounds.
+   Each pull is an ordinary pull of its own resource: property text "the concatenation of the chunks a
+   consumer pulls is exactly the byte stream the producer emitted (after decompression, exactly the
+   producer's logical bytes)".  Uncompressed: the model's observation of that resource with the
+   puller's result put in is handed to ok_C09; zstd: the oracle's clause [hl_is] itself. *)
+let conc_step cs os =
+  let f = fields cs and o = fields os in
+  match get_opt o "crash" with
+  | Some c -> ["BAD\tside=impl\tclause=crash:" ^ c]
+  | None ->
+    let k = int_of_n (n_of_hex (get f "conc")) and len = int_of_n (n_of_hex (get f "len")) in
+    let dh = get f "data" and z = (get f "z" = "1") in
+    if len > 0 && String.length dh <> 2 * k * len then failwith "conc: data length";
+    let bad = ref [] in
+    for j = k - 1 downto 0 do
+      let data = if len = 0 then [] else bytes_of_hex (String.sub dh (2 * j * len) (2 * len)) in
+      let rs = match get_opt o (Printf.sprintf "r%d" j) with Some s when s <> "" -> split_on '|' s | _ -> failwith "conc: a consumer without results" in
+      let c = case_of f ~data ~cj:(n_of_int 0) in
+      let c = { c with Svs.c_zstd = z } in
+      let m = if z then None else (if not (Svs.c09_wf c) then failwith "conc: case not wf"; Some (Svs.model_C09 c)) in
+      Stdlib.List.iter (fun r ->
+        let ok = match (try Some (parse_hl r) with Timeout -> None) with
+          | None -> false
+          | Some h ->
+            (match m with
+             | Some m -> Svs.ok_C09 c { m with Svs.o_vec = h }
+             | None -> Svs.hl_is h (Some data)) in
+        if not ok then
+          bad := (Printf.sprintf "BAD\tside=impl\tclause=concurrent pulls of different resources: consumer %d got %s instead of exactly its own producer's bytes" j (trunc r)) :: !bad) rs
+    done;
+    !bad
+
+(* park=1: a cancel is acknowledged while an earlier `next` of that stream is parked on a stalled
+   producer.  The responses before the cancel (the parked one included, if it delivered a chunk) are
+   the cancel-stream pulls of the ordinary case, every `next` after the acknowledgement is its
+   after-cancel response: ok_C09's "pulling past the end or after release is an error". *)
+let park_step cs os =
+  let f = fields cs and o = fields os in
+  match get_opt o "crash" with
+  | Some c -> ["BAD\tside=impl\tclause=crash:" ^ c]
+  | None ->
+    let pre = parse_resps (get o "pre") and parked = parse_resp (get o "parked") in
+    let later = parse_resps (get o "later") in
+    if later = [] then failwith "park: no later next";
+    (* a parked `next` answered with an error was overtaken by the cancel: one more after-cancel response *)
+    let (before, after) = if Svs.is_err parked then (pre, parked :: later) else (pre @ [parked], later) in
+    let c = case_of f ~data:(bytes_of_hex (get f "data")) ~cj:(n_of_int (Stdlib.List.length before)) in
+    if not (Svs.c09_wf c) then failwith "park: case not wf";
+    let m = Svs.model_C09 c in
+    let bad = ref [] in
+    Stdlib.List.iteri (fun i r ->
+      if not (Svs.ok_C09 c { m with Svs.o_cancel_pulls = before; o_after_cancel = r }) then
+        bad := (Printf.sprintf "BAD\tside=impl\tclause=ok_C09: cancel acknowledged while a next was parked, %s" (if Svs.is_err r then "the chunks delivered before it are not the stream's" else Printf.sprintf "next %d after it is not an error" (i + 1))) :: !bad) after;
+    Stdlib.List.rev !bad
+
+(* early=<mode>: a puller whose decoder stopped early has returned: the stream is released, every raw
+   `next` afterwards takes the place of the after-cancel response of the ordinary case ("pulling past
+   the end or after release is an error"); a prefix the consumer read is a delivered-before-release
+   chunk (it must be a prefix of the producer's bytes). *)
+let early_step cs os =
+  let f = fields cs and o = fields os in
+  match get_opt o "crash" with
+  | Some c -> ["BAD\tside=impl\tclause=crash:" ^ c]
+  | None ->
+    let probes = parse_resps (get o "probes") in
+    if probes = [] then failwith "early: no probe";
+    let pre = match get o "prefix" with "-" -> [] | h -> [Svs.RChunk (bytes_of_hex h, false)] in
+    let c = case_of f ~data:(bytes_of_hex (get f "data")) ~cj:(n_of_int (Stdlib.List.length pre)) in
+    if not (Svs.c09_wf c) then failwith "early: case not wf";
+    let m = Svs.model_C09 c in
+    let bad = ref [] in
+    Stdlib.List.iteri (fun i r ->
+      if not (Svs.ok_C09 c { m with Svs.o_cancel_pulls = pre; o_after_cancel = r }) then
+        bad := (Printf.sprintf "BAD\tside=impl\tclause=ok_C09: the puller returned (its decoder was done early), %s" (if Svs.is_err r then "the prefix it read is not the stream's" else Printf.sprintf "but next on stream id %d is not an error" (i + 1))) :: !bad) probes;
+    Stdlib.List.rev !bad
+
 let step _ cs os =
   if get_opt (fields cs) "dup" = Some "1" then dup_step cs os else
+  if get_opt (fields cs) "conc" <> None then conc_step cs os else
+  if get_opt (fields cs) "park" = Some "1" then park_step cs os else
+  if get_opt (fields cs) "early" <> None then early_step cs os else
   let f = fields cs and o = fields os in
   let c = { Svs.c_data = bytes_of_hex (get f "data"); c_n = n_of_hex (get f "n"); c_depth = n_of_hex (get f "d");
             c_writes = nlist (get f "w"); c_fail = optn (get f "f"); c_zstd = (get f "z" = "1");
